@@ -108,7 +108,7 @@ def step (s : State) (te : TEv) : R State :=
         | some x, .ok => pure (s.set { x with running := true, flag := false, vac := none, chkOp := none, crtOps := [] })
         | _, _ => pure s
       else pure s
-    | .api _ i .stop | .api _ i (.stopctx _ _ _ _) =>
+    | .api _ i .stop | .api _ i (.stopctx _ _ _ _) | .cancelCtx i =>
       match s.get i with
       | some x => pure (s.set { x with running := false, vac := none })
       | none => pure s
@@ -250,7 +250,7 @@ def step (s : State) (te : TEv) : R State :=
         | some x, .ok => pure (s.set { x with running := true, flag := false, known := none, owed := none })
         | _, _ => pure s
       else pure s
-    | .api _ i .stop | .api _ i (.stopctx _ _ _ _) =>
+    | .api _ i .stop | .api _ i (.stopctx _ _ _ _) | .cancelCtx i =>
       match s.get i with
       | some x => pure (s.set { x with running := false, owed := none })
       | none => pure s
